@@ -43,6 +43,9 @@ type Opts struct {
 	LocalAddr  netip.Addr
 	NoServe    bool
 	Limit      time.Duration // virtual watchdog (default 6h)
+	// IDMayBeRejected: NewServer may legitimately refuse LocalID; the world then
+	// does not run and Outcome.IDRejected is set
+	IDMayBeRejected bool
 	NoListener bool
 }
 
@@ -298,6 +301,7 @@ type Outcome struct {
 	Sig        string
 	Hooks      map[string]int
 	Elapsed    time.Duration // virtual
+	IDRejected bool          // NewServer refused the router id (see Opts.IDMayBeRejected)
 }
 
 // ExitAfterReport is called by checks after writing the END record of a case
@@ -340,6 +344,10 @@ func Run(t *testing.T, o Opts, fn func(w *World)) (out Outcome) {
 		w.Log = &Log{t0: w.T0, quiet: o.Quiet}
 		srv, err := corebgp.NewServer(o.LocalID)
 		if err != nil {
+			if o.IDMayBeRejected {
+				out.IDRejected = true
+				return
+			}
 			panic(err)
 		}
 		w.Srv = srv
